@@ -68,6 +68,25 @@ CLAIMS = {
    note="Not decided: exact recovery on symmetric inputs beyond the formulas' normal forms; Gaussian fit convergence.",
    technique="loop-carried dependence analysis + axis tag system + mirror (copy-paste) detection + normal forms (AST)",
    design="4 C17, 3.4, 3.7"),
+ 'C18': dict(
+   text="Superposition structure decided for all tables: every mapped parameter is assigned from the row at the start of each iteration "
+        "(ROW), no state is carried between rows except the returned accumulator and no first-row special case can be skipped "
+        "(LP1/LP1b/LP2 over all loops of the rendering modules), window/accumulation/precedence/skip statements have the property's normal "
+        "forms (SPEC), input model and table are never written (A1), stored fit results are not modified when rendering (A2), residual = "
+        "data - model.",
+   note="Not decided: discretisation values (astropy). SPEC compares algebraic normal forms of the rendering statements.",
+   technique="loop-carried dependence + first-iteration rule + alias analysis + normal forms (AST)",
+   design="4 C18"),
+ 'C08': dict(
+   text="Slicing commutes structurally for every cache content: every __init__ attribute read elsewhere is copied or sliced by __getitem__ "
+        "(GETITEM, five catalog classes), no by-reference copied container is modified in place (SHARE), every per-source use of a value "
+        "coming from an @as_scalar attribute is inside an isscalar branch or after the normalisation idiom (SCALAR-SHAPE, all uses), "
+        "decorator stacks agree (DECOR), id lookups search the current id array (IDLOOKUP). The 'before or after indexing' history is covered "
+        "because both the slicing of every cache kind and the recomputation path on the scalar child are constrained.",
+   note="Not decided: numerical equality cat[i].p == cat.p[i]. Trusted: the as_scalar decorator body and the three sanctioned cache "
+        "slicing forms.",
+   technique="shape-polymorphism (scalar vs array) dataflow + attribute-completeness and sharing rules (AST)",
+   design="4 C08, 3.9"),
 }
 
 fix_commits = subprocess.run(['git', '-C', '/repo', 'log', '--format=%h %s', '8203d59..HEAD'],
